@@ -1,6 +1,7 @@
 package main
 
 import (
+	"encoding/json"
 	"fmt"
 	"strings"
 
@@ -248,7 +249,9 @@ func runC08(c *Ctx) {
 		for iss, kp := range signers {
 			for _, ia := range []string{"", A, B} {
 				for _, kind := range []string{"user", "activation"} {
-					for _, enc := range []string{"v2", "v1"} {
+					// "v2 hybrid": a version-2 token whose payload also carries, at its top level, the issuer_account member of
+					// the version-1 layout (naming this account): in a version-2 token that member means nothing
+					for _, enc := range []string{"v2", "v1", "v2 hybrid"} {
 						sub := U
 						if kind == "activation" {
 							sub = B
@@ -256,11 +259,11 @@ func runC08(c *Ctx) {
 						var tok string
 						var err error
 						switch {
-						case enc == "v2" && kind == "user":
+						case enc != "v1" && kind == "user":
 							x := jwt.NewUserClaims(sub)
 							x.IssuerAccount = ia
 							tok, err = x.Encode(kp)
-						case enc == "v2":
+						case enc != "v1":
 							x := jwt.NewActivationClaims(sub)
 							x.IssuerAccount, x.ImportSubject, x.ImportType = ia, "a.b", jwt.Stream
 							tok, err = x.Encode(kp)
@@ -276,13 +279,25 @@ func runC08(c *Ctx) {
 						if err != nil {
 							panic(err)
 						}
+						if enc == "v2 hybrid" {
+							ch := strings.Split(tok, ".")
+							pj, _ := b64.DecodeString(ch[1])
+							var m map[string]interface{}
+							if err := json.Unmarshal(pj, &m); err != nil {
+								panic(err)
+							}
+							m["issuer_account"] = A
+							pj, _ = json.Marshal(m)
+							hj, _ := b64.DecodeString(ch[0])
+							tok = forge(string(hj), string(pj), "v2", &signer{kp: kp}).Token
+						}
 						cl, err := jwt.Decode(tok)
 						if err != nil {
 							panic(err)
 						}
 						got := ac.DidSign(cl)
 						want := iss == A || (ia == A && contains(keys, iss))
-						inp := map[string]interface{}{"entity": "account", "claim_arrived_as": enc + " token", "kind": kind,
+						inp := map[string]interface{}{"entity": "account", "claim_arrived_as": enc + " token", "token": tok, "kind": kind,
 							"issuer": nameOf(iss, A, K1, K2, AX, B), "issuer_account": nameOf(ia, A, B), "impl": got, "spec": want}
 						c.sum.Evaluations++
 						c.sum.ImplChecks++
